@@ -11,7 +11,7 @@ RELAY_ENV = dict(os.environ, VERIF_RELAY=os.path.join(V.BIN, "h_relay"))
 def main(pid, argv):
     ck = V.Check(pid, argv)
     ck.rule = ("the full product of transports {unix socket, TCP loopback, in-memory pipe, bridge subprocess} x operations {ReadBytes, raw Read, Write} x {cancel, "
-               "deadline} x cancellation instants {before the call, while blocked with nothing in flight, while a frame is partially received, after completion}, "
+               "deadline} x cancellation instants {before the call, while blocked with nothing in flight, while a frame is partially received (in the kernel, or already in the connection's buffer behind a complete frame), after completion with a deadline that then passes}, "
                "each repeated; observed: error class, latency against a one-sided bound (< 1 s while the peer stays silent for 3 s), goroutines left behind, and a "
                "follow-up operation with a live context that must receive every byte the peer sends afterwards. distinct = distinct scenarios x repetition; "
                "non-trivial = scenario that cancels a blocked operation")
@@ -27,8 +27,8 @@ def main(pid, argv):
     else:
         scen = []
         for t, op, kind, inst in itertools.product(["unix", "tcp", "pipe", "bridge"], ["readbytes", "read", "write"], ["cancel", "deadline"],
-                                                   ["before", "blocked", "partial", "after"]):
-            if inst == "partial" and op != "readbytes":
+                                                   ["before", "blocked", "partial", "buffered", "after"]):
+            if inst in ("partial", "buffered") and op != "readbytes":
                 continue
             scen += ["%s %s %s %s" % (t, op, kind, inst)] * reps
     # run in parallel shards (each scenario blocks ~0.1 s; a stuck one 3 s)
@@ -49,7 +49,8 @@ def main(pid, argv):
             impl.setdefault(sc, []).append(o)
     uniq = list(dict.fromkeys(scen))
     # every transport is expected to honour deadlines
-    model = V.run_model("ctx-run", ["1 %s %s" % (s.split()[2], s.split()[3]) for s in uniq])
+    # for the model a frame head that sits in the connection's own buffer is the same situation as one still in the kernel: no delimiter, the helper blocks
+    model = V.run_model("ctx-run", ["1 %s %s" % (s.split()[2], s.split()[3].replace("buffered", "partial")) for s in uniq])
     nf = 0
     for sc, ml in zip(uniq, model):
         allowed = set(ml.split(","))
@@ -58,7 +59,7 @@ def main(pid, argv):
             t, op, kind, inst = sc.split()
             ck.count("transport:" + t)
             ck.count("instant:" + inst)
-            if inst in ("blocked", "partial"):
+            if inst in ("blocked", "partial", "buffered"):
                 ck.distinct.add((sc, rep))
             f = dict(kv.split("=", 1) for kv in il.split() if "=" in kv)
             bad = None
